@@ -99,6 +99,9 @@ type Injector struct {
 type Run struct {
 	Inj   int `json:"inj"`
 	Fault int `json:"fault"` // item index of the provider to fail, -1 = none
+	// Zero passes the zero value for every injector argument (instead of
+	// token-carrying values).
+	Zero bool `json:"zero,omitempty"`
 }
 
 // Spec is a whole generated program.
